@@ -147,6 +147,8 @@ Ctor(st0, bp, s) ==
         k == d.kind
     IN CASE k = "ConsolidatedGovernment" ->
               SetVar(SetVar(GovCore(st, s), s, "FISC_BAL", DVar(<< s, "INC" >>)), s, "T", DConst0)
+         [] k = "GoldStandardGovernment" ->
+              SetVar(SetVar(GovCore(st, s), s, "FISC_BAL", DVar(<< s, "INC" >>)), s, "T", DConst0)
          [] k = "Treasury" ->
               SetVar(SetVar(GovCore(st, s), s, "DEM_MON", DZero), s, "T", DZero)
          [] k = "CentralBank" ->
@@ -427,6 +429,25 @@ GenMultiOutput(st, bp, decl, s) ==
     IN IF FirstWithDIV(st1, bp, decl, s) # 0 THEN Fail(st1, "dividends of multi-output business not implemented")
        ELSE st1
 
+\* gold-standard government: GOLDPURCHASES = GOLDPURCHASES - NET_<cur> (implicitly: the purchases that bring the FX
+\* position in the own currency to zero); modelled as a free atom - the identities of C01 / C07 hold for any value
+GenGoldGovernment(st, bp, s) ==
+    IF ~HasExt(bp) THEN Fail(st, "gold standard sector without ExternalSector")
+    ELSE
+    LET cur == CurOf(bp, s)
+        gp == << s, "GOLDPURCHASES" >>
+        price == << GOLDid(bp), "PRICE" >>
+        st1 == SetVar(st, s, "GOLDPURCHASES", DAtom)
+        st2 == IF HasVar(st1, GOLDid(bp), "PRICE") THEN st1
+               ELSE SetVar(SetVar(st1, GOLDid(bp), "PRICE", DAtom), GOLDid(bp), "NETOZ", DEmpty)
+        st3 == SetVar(st2, s, "GOLDPRICE", DQuot(price, << XRid(bp), cur >>))
+        st4 == SetVar(st3, s, "GOLD", DSum(MAdd(M1({<< s, "LAG_GOLD_OZ" >>, << s, "GOLDPRICE" >>}, 1), {gp}, 1)))
+        st5 == SetVar(st4, s, "LAG_GOLD_OZ", DLag(<< s, "GOLD_OZ" >>))
+        st6 == SetVar(st5, s, "GOLD_OZ", DQuot(<< s, "GOLD" >>, << s, "GOLDPRICE" >>))
+        st7 == SendMoney(st6, bp, cur, gp)
+        st8 == AddCashFlow(st7, s, -1, {gp}, "GOLDPURCHASES", FALSE, NoDef, gp)
+    IN AddTermToVar(st8, << GOLDid(bp), "NETOZ" >>, {<< XRid(bp), cur >>, gp}, 1)
+
 GenCentralBank(st, bp, s) ==
     [st EXCEPT !.reg = Append(@, [src |-> s, dst |-> Sec(bp, s).tre, var |-> "INTDEP", incs |-> TRUE, incd |-> TRUE])]
 
@@ -440,6 +461,7 @@ Gen(st, bp, decl, s) ==
               [] k = "FixedMarginBusiness" -> GenBusiness(st, bp, decl, s)
               [] k = "FixedMarginBusinessMultiOutput" -> GenMultiOutput(st, bp, decl, s)
               [] k = "CentralBank" -> GenCentralBank(st, bp, s)
+              [] k = "GoldStandardGovernment" -> GenGoldGovernment(st, bp, s)
               [] OTHER -> st
 
 ----------------------------------------------------------------------------
@@ -670,6 +692,15 @@ RefsOf(d) == CASE d.t = "sum" -> UNION DOMAIN d.terms
                [] d.t = "quot" -> {d.of, d.den}
                [] OTHER -> {}
 C05_Closed == phase = "final" => \A v \in DOMAIN st.df : RefsOf(st.df[v]) \subseteq DOMAIN st.df
+
+(* C18: no definition of one currency zone refers to a variable of another zone unless a flow or a supplier was *)
+(* declared between the two zones (variables of the external sector are common to all zones)                    *)
+LinkedZones(b) ==
+    { {CurOf(b, f.src), CurOf(b, f.dst)} : f \in Range(b.flows) } \cup { {CurOf(b, r.mkt), CurOf(b, r.sup)} : r \in Range(b.suppliers) }
+C18_ZoneIsolation == phase = "final" =>
+    \A v \in DOMAIN st.df : v[1] <= NSec(bp) =>
+        \A u \in RefsOf(st.df[v]) : u[1] <= NSec(bp) =>
+            (CurOf(bp, u[1]) = CurOf(bp, v[1]) \/ {CurOf(bp, u[1]), CurOf(bp, v[1])} \in LinkedZones(bp))
 
 (* C08: the final state is a function of the blueprint, not of the declaration order *)
 CanonOrder(b) == [i \in 1..NSec(b) |-> i]
